@@ -1,5 +1,6 @@
 import SamplyModel.Model.BreakpadWholesym
 import SamplyModel.Lemmas.BreakpadMap
+import SamplyModel.Model.BreakpadSpec
 /-!
 Helper lemmas for C10, improvement round: what `parse_symindex_file` demands of the length of its input
 (so that every proper prefix of a serialized index is rejected), array lengths of a parsed index, and the
@@ -199,3 +200,70 @@ theorem wsIndex_eq (pick : Pick) (lens : List Nat) (text : List Byte) :
   rw [index_chunk_independent, readLoop_flatten wsCap (by decide) _ _ _ (Nat.le_refl _)]
 
 end BP
+
+namespace BPS
+open BP
+open LB (Byte)
+
+/-! ### the index of a well-formed file passes the MODULE-line test of `make_index_storage` -/
+
+theorem foldl_infoStep_shape (ls : List SLine) (acc : List Byte) :
+    ∃ X, ls.foldl infoStep acc = acc ++ X ∧ (X = [] ∨ ∃ t, X = 10 :: t) := by
+  induction ls generalizing acc with
+  | nil => exact ⟨[], by simp, Or.inl rfl⟩
+  | cons l ls ih =>
+    simp only [List.foldl_cons]
+    cases hr : l.r with
+    | info rest =>
+      obtain ⟨X, hX, _⟩ := ih (acc ++ 10 :: l.r.content)
+      refine ⟨10 :: l.r.content ++ X, ?_, Or.inr ⟨_, rfl⟩⟩
+      simp only [infoStep, hr] at hX ⊢
+      rw [hX]; simp
+    | file _ _ => simpa [infoStep, hr] using ih acc
+    | origin _ _ => simpa [infoStep, hr] using ih acc
+    | pub _ _ _ _ => simpa [infoStep, hr] using ih acc
+    | func _ _ _ _ _ => simpa [infoStep, hr] using ih acc
+    | line _ _ _ _ => simpa [infoStep, hr] using ih acc
+    | inline _ _ _ _ _ _ => simpa [infoStep, hr] using ih acc
+    | stack _ => simpa [infoStep, hr] using ih acc
+
+theorem takeWhile_ne10 (m X : List Byte) (hm : (10 : Byte) ∉ m) (hX : X = [] ∨ ∃ t, X = 10 :: t) :
+    (m ++ X).takeWhile (· ≠ 10) = m := by
+  induction m with
+  | nil =>
+    rcases hX with rfl | ⟨t, rfl⟩
+    · rfl
+    · simp [List.takeWhile]
+  | cons b m ih =>
+    have hb : b ≠ 10 := by intro e; subst e; simp at hm
+    have hm' : (10 : Byte) ∉ m := by intro h; exact hm (List.mem_cons_of_mem _ h)
+    have ih' := ih hm'
+    simp only [List.cons_append, List.takeWhile_cons, ne_eq, hb, not_false_eq_true, decide_true, if_true]
+    rw [show (fun x : Byte => decide (¬ x = 10)) = (fun x => decide (x ≠ 10)) from rfl, ih']
+
+theorem storedModuleLine_spec (s : SymFile) (h : WFIndex s) :
+    storedModuleLine (specIndex s) = s.moduleLine := by
+  obtain ⟨X, hX, hsh⟩ := foldl_infoStep_shape s.lines s.moduleLine
+  unfold storedModuleLine
+  show (specModInfo s).takeWhile (· ≠ 10) = s.moduleLine
+  unfold specModInfo
+  rw [hX]
+  exact takeWhile_ne10 _ _ h.moduleNoNl hsh
+
+theorem joinNl_prefix (first : List Byte) (ls : List (List Byte)) : first <+: LB.joinNl first ls := by
+  cases ls with
+  | nil => exact List.prefix_refl _
+  | cons l ls => exact List.prefix_append _ _
+
+theorem storedMatches_render (s : SymFile) (h : WFIndex s) : storedMatches (render s) (specIndex s) = true := by
+  rw [storedMatches_iff, storedModuleLine_spec s h]
+  refine ⟨?_, ?_⟩
+  · intro e
+    have := h.moduleOk
+    rw [e] at this
+    simp [moduleLine, tag, tMODULE] at this
+  · unfold render
+    exact List.IsPrefix.trans (List.prefix_append _ _)
+      (List.IsPrefix.trans (joinNl_prefix _ _) (List.prefix_append _ _))
+
+end BPS
